@@ -36,6 +36,13 @@ def main():
         run(["git", "-C", "/repo", "worktree", "add", "--detach", "-f", scratch, "HEAD"], check=True)
         env = dict(os.environ, PYTHONPATH=scratch)
         env.pop("STACKSCOPE_VERIF", None)
+        if os.environ.get("SEEDTEST_DEMO_IN_TREE"):
+            # demos that locate the library relative to their own file (and re-execute themselves under another
+            # interpreter) must live inside the tree they are to judge
+            os.makedirs(os.path.join(scratch, "_seed"), exist_ok=True)
+            shutil.copyfile(demo, os.path.join(scratch, "_seed", "demo.py"))
+            demo = os.path.join(scratch, "_seed", "demo.py")
+            meta["demo_run_from_inside_the_tree"] = True
         # demo on the unmodified tree
         p = run(["/venv/bin/python", demo], cwd=scratch, env=env, timeout=600)
         meta["demo_without_patch"] = {"exit": p.returncode, "tail": p.stdout.strip().splitlines()[-1:]}
@@ -68,6 +75,7 @@ def main():
         if ok:
             dst = os.path.join(VERIF, "seeded", name)
             os.makedirs(dst, exist_ok=True)
+            demo = os.path.join(seed_dir, "demo.py")
             for f in ("patch.diff", "demo.py", "notes.md"):
                 if os.path.exists(os.path.join(seed_dir, f)):
                     shutil.copyfile(os.path.join(seed_dir, f), os.path.join(dst, f))
